@@ -6,7 +6,8 @@
    system of Model.v (current tree = Fixed):
 
    - API calls: Enqueue/Dequeue are no-ops once [stopped] is set (the unlocked test at their
-     top), otherwise the atomic locked body;
+     top), otherwise the atomic locked body; Close may be called any number of times (each call in
+     its own goroutine): the first wins the CompareAndSwap, the others only wait on the wait group;
    - after the client step all internal events run until nothing is enabled ([settle]); the
      test seams hold the loop where the harness's clock holds the real goroutine: at
      [LDeciding] (inside Now()), at [LArming] (inside NewTimer()), at [LCallback];
@@ -53,7 +54,7 @@ Definition state_eqb (a b : state) : bool :=
   items_eqb (q a) (q b) && Bool.eqb (running a) (running b) && Bool.eqb (reset a) (reset b) &&
   Bool.eqb (stopped a) (stopped b) && Bool.eqb (stopch a) (stopch b) && (clock a =? clock b) &&
   lpc_eqb (loop a) (loop b) && Nat.eqb (exiting a) (exiting b) && cpc_eqb (close a) (close b) &&
-  execd_eqb (executed a) (executed b).
+  execd_eqb (executed a) (executed b) && Nat.eqb (cwait a) (cwait b) && Nat.eqb (cret a) (cret b).
 
 (* ------------------------------------------------------------------------------------ *)
 (* simulation state: model state + the harness's seams *)
@@ -103,6 +104,7 @@ Definition succs (m : sim) : list sim :=
   match step Fixed s EvCloseStop with Some s' => [with_st m s'] | None =>
   match step Fixed s EvCloseToken with Some s' => [with_st m s'] | None =>
   match step Fixed s EvCloseRet with Some s' => [with_st m s'] | None =>
+  match step Fixed s EvClose2Ret with Some s' => [with_st m s'] | None =>
   match step Fixed s EvDone with Some s' => [with_st m s'] | None =>
   if held m then [] else
   let m' := if at_seam m then mkSim s (g_now m) (g_timer m) (g_cb m) false (seen m) else m in
@@ -114,7 +116,7 @@ Definition succs (m : sim) : list sim :=
       flat_map (fun c => map (with_st m') (opt_list (step Fixed s (EvLoop c 0))))
                [ChStep; ChTimer; ChReset; ChStop]
   end
-  end end end end.
+  end end end end end.
 
 (* all resting points reachable by internal events; no result when the fuel runs out *)
 Fixpoint settle (fuel : nat) (m : sim) : list sim :=
@@ -141,7 +143,12 @@ Definition apply_op (o : op) (m : sim) : list sim :=
            then map (fun p => with_st m (do_dequeue k p s)) (pick_range s)
            else [with_st m (do_dequeue k 0 s)]
   | OAdv t => [with_st m (set_clock s (Z.max (clock s) t))]
-  | OClose => match step Fixed s EvCloseCAS with Some s' => [with_st m s'] | None => [m] end
+  | OClose =>
+      (* the first call wins the CompareAndSwap; every later one goes straight to wg.Wait *)
+      match step Fixed s EvCloseCAS with
+      | Some s' => [with_st m s']
+      | None => match step Fixed s EvClose2 with Some s' => [with_st m s'] | None => [m] end
+      end
   | OGates a b c => [mkSim s a b c (rel m) (seen m)]
   | ORelease => [if held m then mkSim s (g_now m) (g_timer m) (g_cb m) true (seen m) else m]
   end.
@@ -179,11 +186,13 @@ Fixpoint zpairs_eqb (a b : list (Z * Z)) : bool :=
   | _, _ => false
   end.
 
-Definition cpc_returned (c : cpc) : bool := match c with CReturned => true | _ => false end.
+(* how many Close calls have returned *)
+Definition closed_count (s : state) : Z :=
+  (match close s with CReturned => 1 | _ => 0 end) + Z.of_nat (cret s).
 
 Definition matches (o : obs) (m : sim) : bool :=
   zpairs_eqb (new_execs m) (o_execs o) && (pos_of (st m) =? o_pos o) && (dl_of (st m) =? o_dl o) &&
-  Bool.eqb (cpc_returned (close (st m))) (o_closed o).
+  (closed_count (st m) =? o_closed o).
 
 Definition mark_seen (m : sim) : sim :=
   mkSim (st m) (g_now m) (g_timer m) (g_cb m) (rel m) (length (executed (st m))).
@@ -220,15 +229,31 @@ Definition run_cases (cs : list (Z * case)) : list (Z * Z) := failures check_cas
 (* smoke test: one item, parked on its timer, then due *)
 Example check_smoke :
   check_case (CScript 0
-    [ (SOp (OEnq (mkItem 1 1000000 7)), mkObs [] 3 1000000 false);
-      (SOp (OAdv 999999), mkObs [] 3 1000000 false);
-      (SOp (OAdv 1000000), mkObs [(7, 1000000)] 0 0 false);
-      (SOp OClose, mkObs [] 0 0 true) ]) = 0.
+    [ (SOp (OEnq (mkItem 1 1000000 7)), mkObs [] 3 1000000 0);
+      (SOp (OAdv 999999), mkObs [] 3 1000000 0);
+      (SOp (OAdv 1000000), mkObs [(7, 1000000)] 0 0 0);
+      (SOp OClose, mkObs [] 0 0 1) ]) = 0.
 Proof. vm_compute. reflexivity. Qed.
+
+(* two Close calls while the callback is held: neither may return before the callback does
+   (the second observation is what a Close that does not wait would produce: verdict 2) *)
+Example check_two_closes :
+  check_case (CScript 0
+    [ (SOp (OGates false false true), mkObs [] 0 0 0);
+      (SOp (OEnq (mkItem 1 0 7)), mkObs [(7, 0)] 4 0 0);
+      (SOp OClose, mkObs [] 4 0 0);
+      (SOp OClose, mkObs [] 4 0 0);
+      (SOp ORelease, mkObs [] 0 0 2) ]) = 0 /\
+  check_case (CScript 0
+    [ (SOp (OGates false false true), mkObs [] 0 0 0);
+      (SOp (OEnq (mkItem 1 0 7)), mkObs [(7, 0)] 4 0 0);
+      (SOp OClose, mkObs [] 4 0 0);
+      (SOp OClose, mkObs [] 4 0 1) ]) = 2.
+Proof. vm_compute. split; reflexivity. Qed.
 
 (* ... and a stranded item is an oracle failure (verdict 2) *)
 Example check_stranded :
   check_case (CScript 0
-    [ (SOp (OEnq (mkItem 1 1000000 7)), mkObs [] 0 0 false);
-      (SOp (OAdv 2000000), mkObs [] 0 0 false) ]) = 2.
+    [ (SOp (OEnq (mkItem 1 1000000 7)), mkObs [] 0 0 0);
+      (SOp (OAdv 2000000), mkObs [] 0 0 0) ]) = 2.
 Proof. vm_compute. reflexivity. Qed.
